@@ -928,6 +928,13 @@ class Transport(threading.Thread, ClosingContextManager):
         self.stop_thread()
         for chan in list(self._channels.values()):
             chan._unlink()
+        # wake up anybody blocked in accept(): the run loop only does so when
+        # it is the one that notices the end of the connection
+        self.lock.acquire()
+        try:
+            self.server_accept_cv.notify_all()
+        finally:
+            self.lock.release()
         self.sock.close()
 
     def get_remote_server_key(self):
